@@ -62,11 +62,14 @@ type leafRun struct {
 	oversize   int
 	early      []string // tasks not finished when this leaf reported completion
 	optOuts    int      // opted out of a multiplexed stream above a still unfinished task (permitted)
-	// lenient[task]: the clones this consumer belongs to are multiplexed ABOVE
-	// the buffer carrying that task (task -> error handler -> CloneStream).
-	// Closing such a clone merely opts out of the shared stream; only the
-	// consumer that sees the end of the stream is told "complete".
-	lenient  map[string]bool
+	// lenient[task] > 0: the clones this consumer belongs to are multiplexed
+	// ABOVE the buffer carrying that task (task -> error handler ->
+	// CloneStream). Closing such a clone merely opts out of the shared stream;
+	// only a consumer that sees the end of the stream is told "complete" (1).
+	// With a retrying error handler between the clone and the consumer even a
+	// successful result may come from the replacement buffer after the clone
+	// opted out on an error, so nothing can be concluded (2).
+	lenient  map[string]int
 	panicked bool
 	finished atomic.Bool
 }
@@ -281,7 +284,7 @@ func (x *exec) runNode(n *node, b buffer.Buffer, anc []*taskRun) {
 func (lr *leafRun) completed(anc []*taskRun, full bool) {
 	for _, t := range anc {
 		if !t.done.Load() {
-			if lr.lenient[t.id] && !full {
+			if l := lr.lenient[t.id]; l == 2 || l == 1 && !full {
 				lr.optOuts++
 				continue
 			}
@@ -424,7 +427,7 @@ type outcome struct {
 func newExec(c *run.Case, w *run.Worker, p *plan, d *driver) *exec {
 	x := &exec{c: c, w: w, d: d, p: p, mon: &srcMon{}, leaves: map[string]*leafRun{}, tasks: map[string]*taskRun{}, viol: map[string]string{}}
 	for _, l := range p.leaves() {
-		lr := &leafRun{n: l, spec: l.leaf, acc: p.acceptFor(l), lenient: map[string]bool{}}
+		lr := &leafRun{n: l, spec: l.leaf, acc: p.acceptFor(l), lenient: map[string]int{}}
 		// task ... eh ... (stream|replicate) ... leaf
 		path := p.pathTo(l)
 		for i, t := range path {
@@ -433,10 +436,13 @@ func newExec(c *run.Case, w *run.Worker, p *plan, d *driver) *exec {
 			}
 			sawEH := false
 			for _, m := range path[i+1:] {
-				if m.op == opEH {
+				switch {
+				case m.op == opEH && m.eh == ehRetry && lr.lenient[t.id] > 0:
+					lr.lenient[t.id] = 2
+				case m.op == opEH:
 					sawEH = true
-				} else if sawEH && (m.op == opStream || m.op == opRepl) {
-					lr.lenient[t.id] = true
+				case sawEH && (m.op == opStream || m.op == opRepl) && lr.lenient[t.id] == 0:
+					lr.lenient[t.id] = 1
 				}
 			}
 		}
